@@ -441,8 +441,34 @@ func (entry *localFileEntry) Delete() error {
 		}
 	}
 
-	// Remove files.
-	return os.RemoveAll(filepath.Dir(entry.GetPath()))
+	// Remove the entry's own files only. Names may contain slashes, so this directory can
+	// also hold the directories of other entries ("a/b" lives under "a"), which may be
+	// persisted: those are not this entry's to remove.
+	dir := filepath.Dir(entry.GetPath())
+	infos, err := os.ReadDir(dir)
+	if err != nil {
+		if os.IsNotExist(err) {
+			return nil
+		}
+		return err
+	}
+	nested := false
+	for _, info := range infos {
+		if info.IsDir() {
+			nested = true
+			continue
+		}
+		if err := os.Remove(filepath.Join(dir, info.Name())); err != nil && !os.IsNotExist(err) {
+			return err
+		}
+	}
+	if nested {
+		return nil
+	}
+	if err := os.Remove(dir); err != nil && !os.IsNotExist(err) {
+		return err
+	}
+	return nil
 }
 
 // GetReader returns a FileReader object for read operations.
